@@ -152,7 +152,7 @@ type GlyphOpts struct {
 	// Flex[i]: path command i is a curve marked FlexOK and is written,
 	// together with the following curve, as a flex through Subrs 0-2.
 	Flex       map[int]bool
-	HintRepl   bool // hints are re-declared through Subr 4+ and othersubr 3 after the first moveto
+	HintRepl   bool // hints are re-declared through Subr 4+ and othersubr 3 after the first moveto; counter control (othersubrs 12, 13) behind hsbw
 	DotSection bool // the first contour is bracketed by dotsection
 	ForceSbw   bool // hsbw-expressible metrics are written with sbw and zeros
 	VStemFirst bool // vertical stems are declared before horizontal ones
